@@ -446,7 +446,7 @@ def _driver_run(ch, tr):
 
 WORKLOADS = [
     Workload(
-        name="driver", run=_driver_run, runs={"quick": 128, "thorough": 8_000}, chunk=8, run_timeout=300.0,
+        name="driver", run=_driver_run, runs={"quick": 128, "thorough": 4_000}, chunk=8, run_timeout=300.0,
         real=["SolutionStrategy.update_solution / after_nonlinear_iteration (depth = len(time_step_indices) / len(iterate_indices), 1-3) inside the real time loop and Newton loop under injected solver faults"],
         stub=["fault-injecting overrides of check_convergence / solve_linear_system", "save_data_time_step is a no-op"],
         note="anchor 2 of the property: model usage of the sliding window, observed after every converged/failed step",
